@@ -275,12 +275,47 @@ PROPS["C03"] = dict(
     assumptions=["the ftp filesystem content and the per-IP rate limiters are shared by design (configuration-level state)"],
 )
 
+PROPS["C09"] = dict(
+    modules=["HT.Props.C09"],
+    streams=["c09rel"],
+    rule="all 25 lab services on one real Honeytrap; connections through the real handle() over loopback TCP sockets "
+         "(server side presented with the service's port) and datagram connections: per service 5-9 inputs (nothing, "
+         "CRLF, random bytes, an HTTP request, generated dialogues whole and cut in half, protocol-specific prefixes "
+         "incl. FTP passive-mode requests never connected to) x client close / half-close, histories of 3..12 (quick) or "
+         "200 (thorough) sequential connections; measured: time from the client's close to handle() returning (bound 3 s), "
+         "honeytrap goroutines by creating function and /proc/self/fd before and after; silence at every stage (all TCP "
+         "services at once): handle() must return after the 30 s idle timeout; model-compared: the read loop over the real "
+         "DummyUDPConn for every datagram length 0..40 x buffer sizes and sampled large ones, and the ftp session ledger "
+         "(reporter and passive-port goroutines during and after) for every command string up to length 2 (quick) / 4 "
+         "(thorough) over PASV/connect/LIST/NOOP and sampled longer ones; non-trivial = at least one connection / "
+         "non-empty datagram / command",
+    trusted=COMMON_TB + ["verif hook server/verif_hooks.go (VerifNew, VerifHandle)",
+                         "goroutine attribution by stack frames of runtime.Stack; descriptor count from /proc/self/fd",
+                         "modelled, not verified: only the datagram read loop and the ftp/smtp resource ledgers have Lean "
+                         "models; for the other services the property is decided by the measurements alone",
+                         "the 30 s idle timeout is the kernel's socket deadline (server/timeout_conn.go), observed not modelled"],
+    assumptions=["a handler blocked in a library call without deadline outside the connection (none found) would only show in the runs"],
+)
+
 HOOK_COMMITS = ["0596fc6", "c47bf54", "a8020ca", "beeea88", "49bef1d", "2596f07"]
 
 NOT_BUILT = "check not built yet in this round (design in DESIGN.md section 7); not claimed until its theorems and correspondence stream exist"
 NOT_APPLICABLE = {("C%02d" % i): NOT_BUILT for i in range(1, 21)}
 
 MANIFEST_TEXT = {
+    "C09": dict(
+        text="Lean theorems: the read loop over a datagram connection ends after at most length+1 reads for every datagram "
+             "and buffer size (and, with the connection as it was, never ends for any); the ledger of goroutines and "
+             "listening sockets of an ftp session is balanced for every command sequence (any number of passive-mode "
+             "requests, connected or not) and bounded by 2/1 while it runs; any history of balanced sessions leaves "
+             "nothing; the old ftp/smtp ledgers grow without bound. Tied to the code by read-loop runs on the real "
+             "DummyUDPConn and ledger runs on real ftp sessions; all services: time-to-return, goroutine and descriptor "
+             "accounting over histories of connections, and silence until the idle timeout.",
+        design_ref="DESIGN.md section 7, C09 and section 11",
+        note="Partial: termination and release of the handlers other than the modelled loops/ledgers is measured on the "
+             "explored inputs, not proved; scheduler- and kernel-level behaviour (deadlines, descriptor reuse) is observed.",
+        technique="Lean 4 proof (bounded termination by induction, balanced-ledger invariant) + differential correspondence + runtime resource accounting",
+    ),
     "C03": dict(
         text="Lean theorem: for every service whose sessions share at most a table with one slot per key and whose steps "
              "touch only their own local state and their own key's slot, under every schedule (any number of sessions, any "
